@@ -23,7 +23,8 @@ RULE = ('(universes) DynamicUniverse / StaticUniverse alone: entry maps over 1-8
         'such rebalance on); every fill in asset a is later than the first rebalance with entry_a <= r; assets with '
         'None or post-end entry never appear in a row, a fill or the holdings. Non-trivial = (sessions) an entry '
         'exactly on an instant and one a minute after it in one case; (universes) a query exactly at an entry; '
-        '(optimisers) >= 2 assets.')
+        '(optimisers) >= 2 assets.'
+        ' Round-5 reach: the universe-driven alpha model is also built with its optional data-handler argument (a handler pricing every other asset): its signals still cover exactly the members.')
 ASSUMPTIONS = [
     'UTC-aware timestamps; up to 8 assets (direct) / 5 symbols (sessions); sessions of 8-60 days',
     'session markets are dense with data from 9 days before the start (an unpriced member is C06/C07\'s subject)',
@@ -43,6 +44,10 @@ def run_universe(case):
     dyn = q.DynamicUniverse(dict(amap))
     stat = q.StaticUniverse(list(assets))
     exact = False
+    # the universe-driven alpha model, plain and built with its optional data-handler argument (a handler that can
+    # price only every other asset): the signals cover exactly the members, priced or not
+    half = kit.StubDH({a: (10.0, 10.0) for a in assets[::2]})
+    alphas = [q.SingleSignalAlphaModel(dyn, signal=0.5), q.SingleSignalAlphaModel(dyn, signal=0.5, data_handler=half)]
     for qm in case['queries']:
         t = T0 + pd.Timedelta(seconds=qm)
         got = dyn.get_assets(t)
@@ -54,6 +59,11 @@ def run_universe(case):
                 t, list(got), want, {a: str(e) for a, e in amap.items()}))
         if list(stat.get_assets(t)) != list(assets):
             raise Violation('static universe at %s is %s, configured %s' % (t, stat.get_assets(t), assets))
+        for k, al in enumerate(alphas):
+            w = al(t)
+            if list(w) != want or any(v != 0.5 for v in w.values()):
+                raise Violation('universe-driven alpha model%s at %s signals %s; members with entry <= t are %s' % (
+                    ' (built with a data handler pricing %s)' % assets[::2] if k else '', t, w, want))
         if any(e is not None and e == t for e in entries):
             exact = True
     cls = ['has_none'] if None in entries else []
